@@ -39,7 +39,8 @@ RULE = ('(rows, n) pairs: every pair with rows <= 2000 (quick tier: rows <= 800 
         'sample over rows 1..20000 x n 1..64, friendly pairs (n | rows, powers of two, n > rows, rows = 1); each pair '
         'is driven through all n bands on a plain 2-D float32 file, and subsets through 3-D/4-D cubes at every cube '
         'index, an image extension (hdu_index=1), int16/int32 files, BSCALE on float32 and on integer data, and '
-        'BANE-compressed files (real fits_tools.compress output); headers vary projection, CDELT/CD form and sign, '
+        'BANE-compressed files (real fits_tools.compress output, factors 1..64 with every fifth file at factor 1 and the next '
+        'at a factor larger than the image; also carrying BSCALE the way BANE --compress writes them); headers vary projection, CDELT/CD form and sign, '
         'CRPIX (integer, fractional, off-image).  One evaluation = one load_image_band call whose result was '
         'judged; non-trivial = n >= 2; distinct = distinct (file form, rows, n, i), duplicates between strata removed')
 ASSUMPTIONS = ['astropy.io.fits as the reader that defines the full image of plain files',
@@ -51,11 +52,13 @@ MIN_REACH = {'fits_tools:load_image_band': 1, 'fits_tools:expand': 1}
 MIN_COUNTERS = {
     'quick': {'band_loads': 60000, 'pairs_judged': 2500, 'pairs_edge_last': 1500, 'pairs_edge_interior_only': 150,
               'pairs_friendly': 100, 'astrometry_judged': 50000, 'form_3d': 500, 'form_4d': 500,
-              'form_compressed': 500, 'form_bscale_f32': 500, 'form_bscale_int': 500, 'invalid_specs': 50,
+              'form_compressed': 500, 'form_compressed_bscale': 500, 'compressed_files_factor_1': 15,
+              'compressed_files_factor_gt_size': 3, 'compressed_files_factor_gt_columns': 30, 'compressed_bscale_full_checked': 20, 'form_bscale_f32': 500, 'form_bscale_int': 500, 'invalid_specs': 50,
               'noninteger_specs': 300, 'numpy_integer_specs': 40},
     'thorough': {'band_loads': 250000, 'pairs_judged': 9000, 'pairs_edge_last': 5000,
                  'pairs_edge_interior_only': 500, 'pairs_friendly': 100, 'astrometry_judged': 200000,
-                 'form_3d': 3000, 'form_4d': 3000, 'form_compressed': 3000, 'form_bscale_f32': 3000,
+                 'form_3d': 3000, 'form_4d': 3000, 'form_compressed': 3000, 'form_compressed_bscale': 2000, 'compressed_files_factor_1': 60,
+                 'compressed_files_factor_gt_size': 10, 'compressed_files_factor_gt_columns': 100, 'compressed_bscale_full_checked': 80, 'form_bscale_f32': 3000,
                  'form_bscale_int': 3000, 'invalid_specs': 200, 'noninteger_specs': 300, 'numpy_integer_specs': 40},
 }
 
@@ -80,7 +83,8 @@ def edge_pairs(rows_list):
     return out
 
 
-FORMS = ('2d', '3d', '4d', 'ext1', 'int', 'bscale_f32', 'bscale_int', 'compressed')
+FORMS = ('2d', '3d', '4d', 'ext1', 'int', 'bscale_f32', 'bscale_int', 'compressed', 'compressed_bscale')
+COMPRESSED = ('compressed', 'compressed_bscale')
 
 
 def cases(seed, tier):
@@ -110,7 +114,8 @@ def cases(seed, tier):
     keys = sorted(ep)
     small = [k for k in keys if k[0] <= 700]
     for form, pool, cnt in (('3d', keys, 100), ('4d', keys, 100), ('ext1', keys, 40), ('int', keys, 40),
-                            ('bscale_f32', keys, 100), ('bscale_int', keys, 100), ('compressed', small, 100)):
+                            ('bscale_f32', keys, 100), ('bscale_int', keys, 100), ('compressed', small, 100),
+                            ('compressed_bscale', small, 60)):
         cnt = cnt if quick else cnt * 5
         for j in rng.choice(len(pool), size=min(cnt, len(pool)), replace=False):
             add(form, pool[j][0], pool[j][1], 'edge_' + ep[pool[j]])
@@ -125,19 +130,19 @@ def cases(seed, tier):
             add('2d', rows, int(n), 'edge_' + epb[(rows, int(n))])
     # uniform sample
     for form, cnt in (('2d', 250), ('3d', 40), ('4d', 40), ('ext1', 20), ('int', 20), ('bscale_f32', 40),
-                      ('bscale_int', 40), ('compressed', 60)):
+                      ('bscale_int', 40), ('compressed', 60), ('compressed_bscale', 40)):
         cnt = cnt if quick else cnt * 10
         for _ in range(cnt):
-            hi = 20000 if form != 'compressed' else 700
+            hi = 20000 if form not in COMPRESSED else 700
             rows = int(rng.integers(1, hi + 1)) if rng.random() < 0.5 else int(rng.integers(1, 300))
-            if form == 'compressed':
+            if form in COMPRESSED:
                 rows = max(rows, 2)
             add(form, rows, int(rng.integers(1, MAXN + 1)), 'uniform')
     # friendly pairs
     for form in FORMS:
         fr = [(64, 4), (64, 64), (512, 8), (1000, 10), (1024, 16), (4096, 64), (100, 1), (2, 2), (2, 1),
               (60, 12), (7, 7), (640, 5)]
-        fr += [(1, 1), (1, 2), (1, 64), (3, 64), (5, 7), (63, 64), (2, 64)] if form != 'compressed' else [(2, 5), (3, 64)]
+        fr += [(1, 1), (1, 2), (1, 64), (3, 64), (5, 7), (63, 64), (2, 64)] if form not in COMPRESSED else [(2, 5), (3, 64)]
         for rows, n in fr:
             add(form, rows, n, 'friendly')
     # group by rows (one file per rows value), chunk to ~1500 loads per case
@@ -148,7 +153,7 @@ def cases(seed, tier):
         for rows, n, st in items:
             by.setdefault(rows, []).append((n, st))
         chunk, loads = [], 0
-        cap = 1500 if form != 'compressed' else 500
+        cap = 1500 if form not in COMPRESSED else 500
         for rows in sorted(by):
             chunk.append([rows, [[n, st] for n, st in by[rows]]])
             loads += sum(n for n, _ in by[rows])
@@ -164,7 +169,7 @@ def cases(seed, tier):
     for c in out:
         per.setdefault(c['form'], []).append(c)
     mixed = []
-    order = ('compressed', 'bscale_int', '2d', '3d', '4d', 'ext1', 'int', 'bscale_f32')
+    order = ('compressed', 'bscale_int', 'compressed_bscale', '2d', '3d', '4d', 'ext1', 'int', 'bscale_f32')
     while any(per.values()):
         for form in order:
             if per.get(form):
@@ -177,11 +182,11 @@ def _tail():
     return traceback.format_exc()[-1200:]
 
 
-def build_file(form, rows, rng, tmp, ft):
+def build_file(form, rows, rng, tmp, ft, k=None):
     """returns dict(path, hdu_index, cube_index, ncols, raw2d, bscale, plain, info) ; raw2d = the stored values of the
     slice that will be loaded (before BSCALE)"""
     from astropy.io import fits
-    ncols = 3 if form != 'compressed' else int(rng.integers(4, 9))
+    ncols = 3 if form not in COMPRESSED else int(rng.integers(4, 9))
     m = int(rng.integers(1, 5)) if form in ('3d', '4d') else 1
     ci = int(rng.integers(0, m))
     vals = np.arange(m * rows * ncols, dtype=np.int64).reshape(m, rows, ncols) + int(rng.integers(0, 50))
@@ -233,14 +238,37 @@ def build_file(form, rows, rng, tmp, ft):
             if hl[0].header.get('BSCALE') != bscale or 'BZERO' in hl[0].header or \
                     not np.array_equal(hl[0].data, data):
                 raise RuntimeError('harness: could not write a BSCALE file with untouched raw data')
-    if form == 'compressed':
-        f = int(rng.choice([2, 3, 4, 5, 8, 16]))
+    if form in COMPRESSED:
+        # the extreme factors are not left to chance: every fifth file is compressed with factor 1 (every pixel kept,
+        # the padding row/column still stored), the next one with a factor larger than the image
+        f = int(rng.choice([1, 2, 3, 4, 5, 8, 16, 64]))
+        if k is not None and k % 5 == 0:
+            f = 1
+        elif k is not None and k % 5 == 1:
+            f = int(min(64, max(rows, ncols) + 1 + int(rng.integers(0, 3))))
         info['factor'] = f
         cpath = os.path.join(tmp, 'fc.fits')
-        c = ft.compress(path, f, outfile=cpath)
+        if form == 'compressed':
+            c = ft.compress(path, f, outfile=cpath)
+        else:
+            # what BANE --compress writes for an image whose header has BSCALE: the map divided by BSCALE in an HDU
+            # that carries the image's header (BSCALE included), then fits_tools.compress
+            import copy
+            bscale = float(rng.choice([0.5, 0.1, 3.0, 0.25, 2.0, -2.0]))
+            info['bscale'] = bscale
+            hb = copy.deepcopy(h)
+            hb['BSCALE'] = bscale
+            hdu = fits.PrimaryHDU(data.copy())
+            hdu.header = hb
+            c = ft.compress(fits.HDUList([hdu]), f, outfile=cpath)
         if c is None or not os.path.exists(cpath):
             raise RuntimeError('harness: fits_tools.compress produced no file (C15 territory)')
         c.close()
+        if form == 'compressed_bscale':
+            with fits.open(cpath, do_not_scale_image_data=True) as hl:        # harness self-check
+                if hl[0].header.get('BSCALE') != bscale or 'BZERO' in hl[0].header or \
+                        not np.array_equal(hl[0].data[:-1, :-1], data[::f, ::f]):
+                    raise RuntimeError('harness: could not produce a compressed file that carries BSCALE')
         path = cpath
     return {'path': path, 'hdu_index': hdu_index, 'cube_index': ci, 'ncols': ncols, 'raw2d': vals[ci],
             'bscale': bscale, 'info': info, 'm': m}
@@ -264,6 +292,16 @@ def full_image(o, ft, fb, form):
         o.violate('raises', dict(fb['info'], band=[0, 1], exc=tb), _mech_raises(fb['info'], tb))
         return None
     d = np.asarray(d)
+    if form == 'compressed_bscale':
+        f = fb['info']['factor']
+        want = fb['raw2d'].astype(np.float64)[::f, ::f] * fb['bscale']
+        o.count('scaled_full_checked')
+        o.count('compressed_bscale_full_checked')
+        if d.ndim != 2 or d[::f, ::f].shape != want.shape or not np.allclose(d[::f, ::f], want, rtol=1e-6, atol=0):
+            o.violate('scaled_values', dict(fb['info'], what='decimation nodes of the loaded image vs stored*BSCALE',
+                                            got_first=np.ravel(d[::f, ::f])[:3].tolist() if d.ndim == 2 else None,
+                                            want_first=np.ravel(want)[:3].tolist()))
+            return None
     if form.startswith('bscale'):
         want = fb['raw2d'].astype(np.float64) * fb['bscale']
         ok = d.shape == want.shape and np.allclose(d, want, rtol=1e-6, atol=0)
@@ -289,7 +327,7 @@ def _mech_cover(rows, n, covered):
 
 
 def _mech_astrometry(info, hb, hf, r0):
-    if info.get('form') == 'compressed' and r0 > 0 and hb.get('CRPIX2') == hf.get('CRPIX2'):
+    if info.get('form') in COMPRESSED and r0 > 0 and hb.get('CRPIX2') == hf.get('CRPIX2'):
         return 'band-compressed-header-not-adjusted'
     return None
 
@@ -402,7 +440,7 @@ def run(case):
         form = case['form']
         if case['kind'] == 'invalid':
             for rows in (1, 10, 97):
-                if form == 'compressed' and rows == 1:
+                if form in COMPRESSED and rows == 1:
                     continue
                 fb = build_file(form, rows, rng, tmp, ft)
                 for spec in INVALID:
@@ -461,8 +499,17 @@ def run(case):
                                                shapes=[list(np.shape(d0)), list(np.shape(d1))]))
             o.sample = {'form': form, 'specs': INVALID, 'noninteger_specs': [repr(x) for x in nonint_specs()]}
             return o.result()
-        for rows, ns in case['work']:
-            fb = build_file(form, rows, rng, tmp, ft)
+        for k_file, (rows, ns) in enumerate(case['work']):
+            fb = build_file(form, rows, rng, tmp, ft, k=k_file)
+            if form in COMPRESSED:
+                f_ = fb['info']['factor']
+                o.count('compressed_files')
+                if f_ == 1:
+                    o.count('compressed_files_factor_1')
+                elif f_ > fb['ncols']:
+                    o.count('compressed_files_factor_gt_columns')
+                    if f_ > rows:
+                        o.count('compressed_files_factor_gt_size')
             fi = full_image(o, ft, fb, form)
             if fi is None:
                 continue
@@ -472,7 +519,7 @@ def run(case):
                 continue
             if full.shape[0] != rows:
                 o.count('info_full_rows_differ_from_written')
-                if form == 'compressed':
+                if form in COMPRESSED:
                     # the whole-image load of a compressed file must give back every row of the image that was
                     # compressed (C15: dimensions are restored) - otherwise the bands can tile a truncated "full image"
                     # perfectly and hide the loss
